@@ -99,7 +99,7 @@ def script(r, tiny=False, ncomp=None, split=None, alldefault=False):
           "tpc computeall %d" % (r.below(2) if split is None else split), "tpc list", "tpc evalall 0 0 0"]
     for q in (qs or [[i, j, j, i] for (i, j) in cand[:3]]):
         s.append("tpc get %d %d %d %d 0 1 0" % tuple(q))
-    if r.chance(1, 2) and len(cand) >= 2:
+    if len(cand) >= 2:
         # a second bulk computation in the same process with ANOTHER number of components (another colouring of the ranks)
         n2 = (len(qs) % 3) + 1 if qs else 2
         r.shuffle(cand)
